@@ -117,6 +117,29 @@ def r11_2(ctx):
             r.ok({"site": b.where(bi), "cut_by": "state == Handshaking", "bytes": "last_flight_records"})
         else:
             r.violate(b.name, "send:retransmit", b.where(bi), "retransmission not gated on Handshaking or not sending the stored flight")
+    # ... and ALWAYS then: RFC 6347 4.2.4 re-sends the flight on every timer expiry until the handshake is over. The
+    # only ways past the re-send are "not Handshaking" and "no flight stored"; any other early return (e.g. "the peer
+    # already changed cipher, so it must have our flight") stops the client repairing the loss of the server's Finished.
+    def not_handshaking(term, meaning, *_):
+        return term[0] == "call" and "PartialEq" in term[1] and mir.has(term, lambda x: x[0] == "agg" and x[2] == "Handshaking") and \
+            meaning is term[1].endswith("::ne")
+    def no_flight(term, meaning, *_):
+        return term[0] == "discr" and meaning == "None" and mir.has_field(term[1], "last_flight_records")
+    allowed = set(core.guard_edges(b, not_handshaking)) | set(core.guard_edges(b, no_flight))
+    send_blocks = {bi for bi, t, p in sends}
+    rets = [i for i, blk in enumerate(b.blocks) if blk["t"]["k"] == "ret" and i not in b.cleanup]
+    skip = None
+    for rt in rets:
+        q = b.path_to([0], rt, cut_edges=allowed, cut_blocks=send_blocks)
+        if q is not None:
+            skip = q
+            break
+    if skip is None:
+        r.ok({"tick": "every path through handle_retransmit re-sends the stored flight unless state != Handshaking or no flight is stored"})
+    else:
+        r.violate(b.name, "retransmit:skipped", b.where(skip[min(1, len(skip) - 1)]),
+                  "the retransmission tick can return without re-sending the stored flight although the handshake is still in progress: "
+                  "a lost flight is then never repaired from this side", core.describe_path(b, skip))
     h = ctx.body(D + "handshake::{closure#0}")
     r.scope.append(h.name)
     calls = core.calls_to(h, suffix("DtlsInner::handle_retransmit"))
